@@ -115,3 +115,28 @@ func Harness_C09_nonascii_identity() {
 	V.Reach("returned")
 	V.Assert(err != nil && i == nil, "identity string with a non-ASCII character was accepted")
 }
+
+var bech32Class = func() (t [256]bool) {
+	for _, c := range "qpzry9x8gf2tvdw0s3jn54khce6mua7l" {
+		t[c] = true
+	}
+	return
+}()
+
+// Harness_C09_recipient_wellformed: "age1" followed by 58 arbitrary characters
+// of the Bech32 data alphabet: accepted (valid checksum, zero padding) implies
+// canonical.
+func Harness_C09_recipient_wellformed() {
+	d := V.Bytes("d", 58)
+	for _, c := range d {
+		V.Assume(bech32Class[c])
+	}
+	s := "age1" + string(d)
+	r, err := ParseX25519Recipient(s)
+	if err != nil {
+		V.Reach("rejected")
+		return
+	}
+	V.Reach("accepted")
+	V.Assert(r.String() == s, "accepted recipient spelling is not canonical")
+}
